@@ -49,7 +49,7 @@ func init() {
 		Exec:      exec,
 		Required: []string{"api-wts", "api-let", "api-go", "bignum", "ratio", "single-float", "double-float", "long-float",
 			"radix-marker", "symbol-piped", "string-escaped", "char-named", "char-nonascii", "case-converted",
-			"pretty-wrapped", "pretty-vs-flat", "dotted", "vector", "array-multidim", "wire", "type-of-compared"},
+			"pretty-wrapped", "pretty-vs-flat", "dotted", "vector", "array-multidim", "wire", "type-of-compared", "pair"},
 		Bound:    bound,
 		Selftest: selftest,
 	})
@@ -57,11 +57,11 @@ func init() {
 
 func bound(tier string) string {
 	if tier == engine.Thorough {
-		return fmt.Sprintf("%d leaves at top level (integers/ratios x base 2..36 with radix + base 10 without, x 3 cases x pretty on/off; floats, strings, symbols incl. every printable ASCII character at 3 positions, characters U+0000..U+017F) ; %d core leaves x %d container shapes x {3 cases x 7 base/radix settings x (flat + right margins 1..200)}; full grid (36 base/radix x 3 cases x (flat + margins 1..200)) on a %d-object core; all list/dotted/vector trees of depth <= 2 (width <= 3 / <= 2) over 4 leaves x (flat + every margin 1..flat length+2); every Unicode scalar value (1,112,064) as #\\c and as a one-character string; swank wire round trip of %d message shapes x %d leaves; *print-readably* nil observed for Go faults",
-			len(topLeaves()), len(coreLeaves(false)), len(shapeNames), len(fullCore()), len(wireShapes), len(wireLeaves()))
+		return fmt.Sprintf("%d leaves at top level (integers/ratios x base 2..36 with radix + base 10 without, x 3 cases x pretty on/off; floats, strings, symbols incl. every printable ASCII character at 3 positions, characters U+0000..U+017F) ; %d core leaves x %d container shapes x {3 cases x 7 base/radix settings x (flat + right margins 1..200)}; full grid (36 base/radix x 3 cases x (flat + margins 1..200)) on a %d-object core; every ordered pair of %d leaves as (a b), #(a b), (a . b) x 6 configurations and every ordered pair of the wire leaves in 2 message shapes; all list/dotted/vector trees of depth <= 2 (width <= 3 / <= 2) over 4 leaves x (flat + every margin 1..flat length+2); every Unicode scalar value (1,112,064) as #\\c and as a one-character string; swank wire round trip of %d message shapes x %d leaves; *print-readably* nil observed for Go faults",
+			len(topLeaves()), len(coreLeaves(false)), len(shapeNames), len(fullCore()), len(pairLeaves()), len(wireShapes), len(wireLeaves()))
 	}
-	return fmt.Sprintf("%d leaves at top level (integers/ratios x base 2..36 with radix + base 10 without; floats x 5 base/radix settings; strings, symbols incl. every printable ASCII character at 3 positions, characters U+0000..U+017F x 3 cases x pretty on/off); %d core leaves x %d container shapes x {3 cases x 4 base/radix settings x (flat + margins 1,2,3,5,8,13,20,40,80,200)}; all list/dotted/vector trees of depth <= 2 (width <= 2) over 3 leaves x (flat + 8 margins); Unicode scalars U+0180..U+33FF and every plane/encoding boundary block as #\\c and one-character string; swank wire round trip of %d message shapes x %d leaves; *print-readably* nil observed for Go faults",
-		len(topLeaves()), len(coreLeaves(true)), len(shapeNames), len(wireShapes), len(wireLeaves()))
+	return fmt.Sprintf("%d leaves at top level (integers/ratios x base 2..36 with radix + base 10 without; floats x 5 base/radix settings; strings, symbols incl. every printable ASCII character at 3 positions, characters U+0000..U+017F x 3 cases x pretty on/off); %d core leaves x %d container shapes x {3 cases x 4 base/radix settings x (flat + margins 1,2,3,5,8,13,20,40,80,200)}; every ordered pair of %d leaves as (a b), #(a b), (a . b) under the flat baseline configuration and every ordered pair of the wire leaves in 2 message shapes; all list/dotted/vector trees of depth <= 2 (width <= 2) over 3 leaves x (flat + 8 margins); Unicode scalars U+0180..U+33FF and every plane/encoding boundary block as #\\c and one-character string; swank wire round trip of %d message shapes x %d leaves; *print-readably* nil observed for Go faults",
+		len(topLeaves()), len(coreLeaves(true)), len(shapeNames), len(pairLeaves()), len(wireShapes), len(wireLeaves()))
 }
 
 // ------------------------------------------------------------------ leaves
@@ -687,6 +687,30 @@ func enumerate(tier string, emit func(string)) {
 			grid(shape, l)
 		}
 	}
+	// 3b. every ORDERED PAIR of leaves side by side (state carried by the
+	// printer or the reader from one element to the next)
+	pls := pairLeaves()
+	pcfgs := []cfg{baseline}
+	if !quick {
+		pcfgs = append(pcfgs, cfg{16, true, 'u', false, 120}, cfg{10, true, 'c', false, 120}, cfg{7, true, 'd', false, 120},
+			cfg{10, false, 'd', true, 120}, cfg{10, false, 'd', true, 5})
+	}
+	for _, pc := range pcfgs {
+		for _, shape := range pairShapes {
+			for _, a := range pls {
+				for _, b := range pls {
+					emit(pairSpec("pair", pc.String()+" "+shape, a, b))
+				}
+			}
+		}
+	}
+	for _, shape := range wirePairShapes {
+		for _, a := range wireLeaves() {
+			for _, b := range wireLeaves() {
+				emit(pairSpec("wirepair", shape, a, b))
+			}
+		}
+	}
 	// 4. structurally enumerated trees x margins
 	for _, t := range treeObjects(quick) {
 		label := treeLabel(t)
@@ -1192,6 +1216,34 @@ func exec(spec string) (res engine.Result) {
 			return execObs(c, fields[2], fields[3], lv)
 		}
 		return execRT(c, fields[2], fields[3], lv)
+	case "pair":
+		if len(fields) != 5 {
+			res.Fail("harness:bad-spec", spec)
+			return
+		}
+		c, err := parseCfg(fields[1])
+		if err != nil {
+			res.Fail("harness:bad-spec", err.Error())
+			return
+		}
+		la, lb, a, b, err := parsePair(fields[3], fields[4])
+		if err != nil {
+			res.Fail("harness:bad-spec", err.Error())
+			return
+		}
+		return execPair(c, fields[2], la, lb, a, b)
+	case "wirepair":
+		f := strings.SplitN(spec, " ", 4)
+		if len(f) != 4 {
+			res.Fail("harness:bad-spec", spec)
+			return
+		}
+		la, lb, a, b, err := parsePair(f[2], f[3])
+		if err != nil {
+			res.Fail("harness:bad-spec", err.Error())
+			return
+		}
+		return execWirePair(f[1], la, lb, a, b)
 	case "wire":
 		f := strings.SplitN(spec, " ", 4)
 		if len(f) != 4 {
@@ -1388,6 +1440,235 @@ search:
 	res.Fail(fmt.Sprintf("leaf=%s shape=%s cfg=%s api=%s kind=%s", sigLabel, sigShape, cfgSig(mc), routes, vds[lead].kind),
 		fmt.Sprintf("object %s under %s (attributed to leaf=%s shape=%s, needs only cfg=%s; per route: %s): %s",
 			buildShape(shape, lv).show(), c, sigLabel, sigShape, cfgSig(mc), strings.Join(per, ", "), vds[lead].detail))
+	return
+}
+
+// ------------------------------------------------------------------- pairs
+
+var pairShapes = []string{"list2", "vec2", "cons"}
+var wirePairShapes = []string{"list2", "return2"}
+
+// pairLeaves: the core leaves plus every string leaf (strings are what makes
+// the reader switch to its un-escape buffer).
+func pairLeaves() []leaf {
+	out := append([]leaf{}, coreLeaves(false)...)
+	seen := map[string]bool{}
+	for _, l := range out {
+		seen[l.v.spec()] = true
+	}
+	for _, l := range stringLeaves() {
+		if !seen[l.v.spec()] {
+			seen[l.v.spec()] = true
+			out = append(out, l)
+		}
+	}
+	for _, l := range []leaf{{"symbol-piped", vSym("needs quoting")}, {"symbol-char:U+005C@mid", vSym(`a\b`)}, {"keyword-mixedcase", vSym(":Foo")}} {
+		if !seen[l.v.spec()] {
+			out = append(out, l)
+		}
+	}
+	return out
+}
+
+func pairSpec(family, mid string, a, b leaf) string {
+	return family + " " + mid + " " + a.label + "," + b.label + " (" + a.v.spec() + " " + b.v.spec() + ")"
+}
+
+func parsePair(labels, objs string) (la, lb string, a, b *val, err error) {
+	i := strings.IndexByte(labels, ',')
+	if i < 0 {
+		return "", "", nil, nil, fmt.Errorf("bad pair labels %q", labels)
+	}
+	la, lb = labels[:i], labels[i+1:]
+	v, err := parseSpec(objs)
+	if err != nil {
+		return
+	}
+	if v.k != kList || len(v.e) != 2 || v.tail != nil {
+		return "", "", nil, nil, fmt.Errorf("bad pair objects %q", objs)
+	}
+	return la, lb, v.e[0], v.e[1], nil
+}
+
+func buildPair(shape string, a, b *val) *val {
+	switch shape {
+	case "list2":
+		return &val{k: kList, e: []*val{a, b}}
+	case "vec2":
+		return vVec(a, b)
+	case "cons":
+		return vDot(b, a)
+	}
+	panic("unknown pair shape " + shape)
+}
+
+// singlesOf: the one-leaf containers each member of a pair must survive alone
+// before the PAIR is blamed (S3).
+func singlesOf(shape string, first bool) []string {
+	switch shape {
+	case "vec2":
+		return []string{"list1", "vec1"}
+	case "cons":
+		if first {
+			return []string{"list1", "dottedhead"}
+		}
+		return []string{"list1", "dotted"}
+	}
+	return []string{"list1"}
+}
+
+func addFailures(res *engine.Result, more []engine.Failure) {
+	for _, f := range more {
+		dup := false
+		for _, g := range res.Failures {
+			if g.Sig == f.Sig {
+				dup = true
+			}
+		}
+		if !dup {
+			res.Failures = append(res.Failures, f)
+		}
+	}
+}
+
+func execPair(c cfg, shape, la, lb string, a, b *val) (res engine.Result) {
+	v := buildPair(shape, a, b)
+	o := toSlip(v)
+	res.Hit("api-wts")
+	res.Hit("api-let")
+	res.Hit("api-go")
+	res.Hit("pair")
+	vds := allRoutes(o, v, c, &res)
+	countFeatures(v, c, vds["go"].text, &res)
+	res.Nontrivial = true
+	res.Outcome = fmt.Sprintf("%s|%s", vds["go"].text, kindsOf(vds))
+	if !anyFail(vds) {
+		return
+	}
+	// S3: the pair is blamed only for what each member survives alone, bare
+	// and inside the one-element containers of the same kind. What a member
+	// fails alone is reported under the signature of that smaller case.
+	members := []struct {
+		label string
+		v     *val
+		first bool
+	}{{la, a, true}, {lb, b, false}}
+	for _, m := range members {
+		alone := allRoutes(toSlip(m.v), m.v, c, nil)
+		for _, api := range apis {
+			if vds[api].kind != "" && alone[api].kind != "" {
+				vd := vds[api]
+				vd.kind = ""
+				vds[api] = vd
+				res.Hit("masked-by-leaf")
+			}
+		}
+		for _, sh := range singlesOf(shape, m.first) {
+			sv := buildShape(sh, m.v)
+			single := allRoutes(toSlip(sv), sv, c, nil)
+			hit := false
+			for _, api := range apis {
+				if single[api].kind != "" {
+					hit = true
+					if vds[api].kind != "" {
+						vd := vds[api]
+						vd.kind = ""
+						vds[api] = vd
+					}
+				}
+			}
+			if hit {
+				res.Hit("pair-masked-by-single")
+				r := execRT(c, sh, m.label, m.v)
+				addFailures(&res, r.Failures)
+			}
+		}
+	}
+	if !anyFail(vds) {
+		res.Outcome += "|masked"
+		return
+	}
+	want := kindsOf(vds)
+	// the raw vector of this very case (masking only blanks entries)
+	raw := kindsOf(allRoutes(o, v, c, nil))
+	sigShape := shape
+	if shape != "list2" {
+		lv := buildPair("list2", a, b)
+		if kindsOf(allRoutes(toSlip(lv), lv, c, nil)) == raw {
+			sigShape = "list2"
+			v, o = lv, toSlip(lv)
+		}
+	}
+	mc := minimise(o, v, c, raw)
+	var failing, per []string
+	for _, api := range apis {
+		if vds[api].kind != "" {
+			failing = append(failing, api)
+			per = append(per, api+": "+vds[api].kind)
+		}
+	}
+	routes := strings.Join(failing, "+")
+	if len(failing) == len(apis) {
+		routes = "all"
+	}
+	lead := failing[0]
+	for _, api := range []string{"go", "wts", "let"} {
+		if vds[api].kind != "" {
+			lead = api
+			break
+		}
+	}
+	_ = want
+	res.Fail(fmt.Sprintf("pair=%s,%s shape=%s cfg=%s api=%s kind=%s", la, lb, sigShape, cfgSig(mc), routes, vds[lead].kind),
+		fmt.Sprintf("object %s under %s (each member round-trips alone and in a one-element container; needs only cfg=%s; per route: %s): %s",
+			buildPair(shape, a, b).show(), c, cfgSig(mc), strings.Join(per, ", "), vds[lead].detail))
+	return
+}
+
+func buildWirePair(shape string, a, b *val) *val {
+	if shape == "return2" {
+		return &val{k: kList, e: []*val{vSym(":return"), a, b, vI(7)}}
+	}
+	return &val{k: kList, e: []*val{a, b}}
+}
+
+func execWirePair(shape, la, lb string, a, b *val) (res engine.Result) {
+	res.Hit("wire")
+	res.Hit("pair")
+	res.Nontrivial = true
+	v := buildWirePair(shape, a, b)
+	vd := wireTrip(v)
+	res.Outcome = vd.text + "|" + vd.kind
+	if vd.kind == "" {
+		return
+	}
+	masked := false
+	for _, m := range []struct {
+		label string
+		v     *val
+	}{{la, a}, {lb, b}} {
+		if wireTrip(m.v).kind != "" {
+			masked = true
+			res.Hit("masked-by-leaf")
+			continue
+		}
+		if wireTrip(buildWire("write-string", m.v)).kind != "" {
+			masked = true
+			res.Hit("pair-masked-by-single")
+			r := execWire("write-string", m.label, m.v)
+			addFailures(&res, r.Failures)
+		}
+	}
+	if masked {
+		res.Outcome += "|masked"
+		return
+	}
+	sigShape := shape
+	if shape != "list2" && wireTrip(buildWirePair("list2", a, b)).kind == vd.kind {
+		sigShape = "list2"
+	}
+	res.Fail(fmt.Sprintf("wire pair=%s,%s shape=%s kind=%s", la, lb, sigShape, vd.kind),
+		fmt.Sprintf("message %s (each member round-trips alone and inside (:write-string x)): %s", v.show(), vd.detail))
 	return
 }
 
@@ -1654,7 +1935,7 @@ func selftest(tier string) (killed, total int, notes []string) {
 	cases := 0
 	check := func(v *val, c cfg, m *mutant) string {
 		text := refPrint(v, c, m)
-		back, err := refRead(text)
+		back, err := refReadWith(text, m.readerLeaksEscBuf)
 		if err != nil {
 			return fmt.Sprintf("%s under %s printed %q: read error %v", v.show(), c, text, err)
 		}
@@ -1698,6 +1979,15 @@ func selftest(tier string) (killed, total int, notes []string) {
 				return
 			}
 			one(buildShape(fields[2], lv), c)
+		case "pair":
+			c, err1 := parseCfg(fields[1])
+			_, _, a, b, err2 := parsePair(fields[3], fields[4])
+			if err1 != nil || err2 != nil {
+				refFails++
+				notes = append(notes, "unparsable spec "+spec)
+				return
+			}
+			one(buildPair(fields[2], a, b), c)
 		case "blk":
 			var lo, hi rune
 			_, _ = fmt.Sscanf(spec, "blk %x %x", &lo, &hi)
